@@ -44,6 +44,26 @@ structure CTCPEvent where
   reply : Bool
   deriving DecidableEq, Repr
 
+/-- One channel mode change / stored mode (modes.go `CMode`). -/
+structure CMode where
+  add : Bool
+  name : Byte
+  setting : Bool
+  args : Bytes
+  deriving DecidableEq, Repr
+
+/-- modes.go `CModes`.  The generated code reads the string fields only (Go names `modesListArgs`, `modesArgs`,
+    `modesSetArgs`, `modesNoArgs` ↦ `listArgs`, `argsM`, `setArgs`, `noArgs`). -/
+structure CModes where
+  raw : Bytes
+  listArgs : Bytes      -- CHANMODES class A
+  argsM : Bytes         -- class B
+  setArgs : Bytes       -- class C
+  noArgs : Bytes        -- class D
+  prefixes : Bytes      -- PREFIX mode letters
+  modes : List CMode
+  deriving DecidableEq, Repr
+
 /-- Go run-time failures.  `nilMap`: assignment to an entry of a nil map.  `diverge`: a fuel-bounded loop ran out of fuel.  `unsupported`: emitted by
     the translator (fail-closed) for a target function that is missing or outside the Go subset, and by
     run-time models for arguments outside their modelled domain. -/
@@ -71,6 +91,47 @@ def indexByteI (s : Bytes) (b : Byte) : Int :=
   match indexOf b s with
   | none => -1
   | some n => n
+
+/-! ### The regular expression `reColor` = `\x03([019]?\d(,[019]?\d)?)`, hand-matched (moved here from Model/Format.lean)
+
+TRUSTED table entry of the translator (`regexDeleteTable`): `reColor.ReplaceAllString(s, "")` ↦ `stripColor s`. -/
+
+def COMMA : Byte := 0x2C
+
+def isDigitB (b : Byte) : Bool := 0x30 ≤ b && b ≤ 0x39
+def is019 (b : Byte) : Bool := b = 0x30 || b = 0x31 || b = 0x39
+
+/-- `[019]?\d` at the head (greedy with backtracking): number of bytes consumed. -/
+def colorNum : Bytes → Option Nat
+  | a :: b :: _ => if is019 a && isDigitB b then some 2 else if isDigitB a then some 1 else none
+  | [a] => if isDigitB a then some 1 else none
+  | [] => none
+
+/-- `[019]?\d(,[019]?\d)?` at the head: number of bytes consumed. -/
+def colorArgs (s : Bytes) : Option Nat :=
+  match colorNum s with
+  | none => none
+  | some n =>
+    match s.drop n with
+    | c :: rest => if c = COMMA then
+        match colorNum rest with
+        | some m => some (n + 1 + m)
+        | none => some n
+      else some n
+    | [] => some n
+
+/-- `reColor.ReplaceAllString(text, "")`. -/
+def stripColorFuel : Nat → Bytes → Bytes
+  | 0, s => s
+  | _, [] => []
+  | n + 1, b :: rest =>
+    if b = 0x03 then
+      match colorArgs rest with
+      | some k => stripColorFuel n (rest.drop k)
+      | none => b :: stripColorFuel n rest
+    else b :: stripColorFuel n rest
+
+def stripColor (s : Bytes) : Bytes := stripColorFuel (s.length + 1) s
 
 end Girc.Model
 
@@ -176,6 +237,54 @@ def replacerFuel (pairs : List (Bytes × Bytes)) : Nat → Bytes → Bytes
     | none => b :: replacerFuel pairs n rest
 
 def replacer (pairs : List (Bytes × Bytes)) (s : Bytes) : Bytes := replacerFuel pairs (s.length + 1) s
+
+/-- A non-nil Go `error` VALUE.  Only nil-ness is modelled (`error` ↦ `Option GoErr`, `nil` ↦ `none`); the message
+    text (`fmt.Errorf(…)`) is abstracted away. -/
+inductive GoErr where
+  | mk
+  deriving DecidableEq, Repr
+
+/-- `sort.Strings(x)`: `x` sorted increasingly by Go's string `<` (byte-wise lexicographic, `bytesLt`).
+    TRUSTED table entry: the library sorts in place into the unique ascending arrangement; the model is
+    insertion sort (`sortBytes`, Girc/Base/Bytes.lean). -/
+def sortStrings (l : List Bytes) : List Bytes := sortBytes l
+
+/-- The keys a `for k := range m` visits, in the order of the association list that represents the map.
+    Go's order is unspecified: every permutation of the list represents the same map, and the theorems about a
+    function that ranges over a map hold for every representation. -/
+def mapKeys (t : Option Tags) : List Bytes :=
+  match t with
+  | none => []
+  | some m => AMap.keys m
+
+/-- `strings.ReplaceAll(s, old, new)` for a NON-EMPTY `old`: leftmost, non-overlapping occurrences, scanning left to
+    right.  (An empty `old` matches before every UTF-8 sequence — outside the model, reported as `.unsupported`.) -/
+def replaceAllFuel (old new : Bytes) : Nat → Bytes → Bytes
+  | 0, s => s
+  | _ + 1, [] => []
+  | n + 1, b :: rest =>
+    if old.isPrefixOf (b :: rest) then new ++ replaceAllFuel old new n ((b :: rest).drop old.length)
+    else b :: replaceAllFuel old new n rest
+
+def replaceAll (s old new : Bytes) : Except Fault Bytes :=
+  if old.isEmpty then .error (.unsupported "strings.ReplaceAll: empty old string")
+  else .ok (replaceAllFuel old new (s.length + 1) s)
+
+/-- Look-ups in a package-level map literal (`var X = map[string]T{…}`, emitted as a table with unique keys):
+    `_, ok := X[k]`, `X[k]` for `T = string` and `T = int` (a missing key reads as the zero value). -/
+def pmHas {β : Type} (m : List (Bytes × β)) (k : Bytes) : Bool := (m.lookup k).isSome
+def pmGetS (m : List (Bytes × Bytes)) (k : Bytes) : Bytes := (m.lookup k).getD []
+def pmGetI (m : List (Bytes × Int)) (k : Bytes) : Int := (m.lookup k).getD 0
+
+/-- The decimal digits of a natural number. -/
+def natDigits (n : Nat) : Bytes := (Nat.toDigits 10 n).map (fun c => UInt8.ofNat c.toNat)
+
+/-- `fmt.Sprintf("%02d", i)`: decimal, zero-padded to width 2 (a minus sign counts towards the width, so a negative
+    number is never padded). -/
+def fmtD2 (i : Int) : Bytes :=
+  if i < 0 then 0x2D :: natDigits i.natAbs
+  else if i < 10 then 0x30 :: natDigits i.toNat
+  else natDigits i.toNat
 
 /-- Go `len(m)` on a map (the association list has unique keys). -/
 def mapLen (t : Option Tags) : Int :=
